@@ -252,8 +252,17 @@ def mono_case(asm, acc, seed, idx):
     else:
         items = randprog.gen(rng, MONO_CFGS[idx % len(MONO_CFGS)])
     acc['n'] += 1
-    u = progcheck.examine(asm, items, False, judge=False)
-    c = progcheck.examine(asm, items, True, judge=False)
+    pre = lambda: None  # noqa
+    if idx % 3 == 1:
+        # both builds are handed a label table left over from a build of a differently ordered source (own names, stale values)
+        names = list(dict.fromkeys(it['name'] for it in items if it['k'] == 'label'))
+        prng = random.Random('c20-pre-%d' % idx)
+        prng.shuffle(names)
+        table = {n: 2 * prng.randrange(0, 5000) for n in names}
+        pre = lambda: {'labels': dict(table)}  # noqa
+        acc['ctr']['mono_pairs_with_a_leftover_label_table'] += 1
+    u = progcheck.examine(asm, items, False, judge=False, preseed=pre())
+    c = progcheck.examine(asm, items, True, judge=False, preseed=pre())
     rcase = {'kind': 'mono', 'seed': seed, 'idx': idx}
     if not (u.ok and c.ok):
         acc['ctr']['mono_refused'] += 1
